@@ -16,8 +16,28 @@ def sh(cmd, **kw):
     return subprocess.run(cmd, shell=True, capture_output=True, text=True, **kw)
 
 
+TSAN = "--tsan" in sys.argv
+if TSAN:
+    sys.argv.remove("--tsan")
+TSAN_SRCS = ["src/monitoring/OnlineAverage.cpp", "src/monitoring/OnlineVariance.cpp", "src/monitoring/RateMonitoring.cpp",
+             "src/diagnostics/CheckupRate.cpp", "src/diagnostics/CheckupReliability.cpp", "src/diagnostics/Diagnostic.cpp",
+             "src/diagnostics/DiagnosticReport.cpp", "src/diagnostics/DiagnosticStatus.cpp"]
+
+
 def demo(tree, src, out):
-    """compile the demonstration against the tree's headers and its built shared library"""
+    """compile the demonstration against the tree's headers and its built shared library
+    (--tsan: with the tree's sources under ThreadSanitizer, run three times)"""
+    if TSAN:
+        r = sh("clang++-14 -std=c++17 -O1 -g -fsanitize=thread -I%s/include -isystem /usr/include/eigen3 %s %s -o %s -pthread"
+               % (tree, src, " ".join(os.path.join(tree, x) for x in TSAN_SRCS), out))
+        if r.returncode != 0:
+            return None, r.stderr[-2000:]
+        worst, tail = 0, ""
+        for _ in range(3):
+            r = sh("TSAN_OPTIONS=exitcode=66 " + out, timeout=900)
+            if r.returncode != 0:
+                worst, tail = r.returncode, (r.stdout + r.stderr)[-600:]
+        return worst, tail or "PASS x3"
     lib = os.path.join(tree, "_build")
     r = sh("g++ -std=c++17 -O1 -I%s/include -isystem /usr/include/eigen3 %s -o %s -L%s -lromea_core_common -Wl,-rpath,%s -pthread"
            % (tree, src, out, lib, lib))
